@@ -17,7 +17,7 @@ import (
 func init() {
 	mon.Register(&mon.Prop{
 		ID: "C16", Level: "exploration",
-		Rule:        "generated REBASE format-31 listings: arbitrary header prose (incl. <WORD> legends, never <n> tags), supplier table with 0..26 letters indented with blanks (as distributed) or tabs, 0..300 records with empty fields, 0..15 supplier letters per enzyme, extra reference lines after <8>; Parse, Read (temp file) and Export+json.Unmarshal; non-trivial = at least one record with a non-empty supplier list; distinct by hash of the listing",
+		Rule:        "generated REBASE format-31 listings: arbitrary header prose (incl. <WORD> legends, never <n> tags), supplier table with 0..26 letters indented with blanks (as distributed) or tabs, 0..300 records with empty fields, 0..15 supplier letters per enzyme, one record in 60 with 500..10,000 isoschizomers on one line (4 KiB .. 70 KiB), extra reference lines after <8>; Parse, Read (temp file) and Export+json.Unmarshal; non-trivial = at least one record with a non-empty supplier list; distinct by hash of the listing",
 		Assumptions: []string{"oracle: the abstract listing; nil, empty and [\"\"] are equal for an empty list field", "field text contains no '<' (format guarantee: tags only at line starts)"},
 		Shards:      tierShards(8, 16), WatchdogSec: tierSecs(600, 3600),
 		MinStats: func(string) map[string]int64 {
@@ -244,6 +244,7 @@ func runC16(w *mon.W) {
 			nrec = r.Intn(12)
 		}
 		var recs []rbRecord
+		longLines := 0
 		names := map[string]bool{}
 		for i := 0; i < nrec; i++ {
 			rec := rbRecord{Name: gen.RandWordAlnum(r, 3+r.Intn(8))}
@@ -256,6 +257,13 @@ func runC16(w *mon.W) {
 			names[rec.Name] = true
 			for j := r.Intn(8); j > 0 && r.Intn(4) != 0; j-- {
 				rec.Iso = append(rec.Iso, gen.RandWordAlnum(r, 3+r.Intn(8)))
+			}
+			if r.Intn(60) == 0 {
+				// a much-copied prototype: several hundred isoschizomers on one <2> line (4 KiB and more)
+				for j := []int{500, 600 + r.Intn(40), 1200 + r.Intn(1500), 9000 + r.Intn(1000)}[r.Intn(4)]; j > 0; j-- {
+					rec.Iso = append(rec.Iso, gen.RandWordAlnum(r, 3+r.Intn(8)))
+				}
+				longLines++
 			}
 			if r.Intn(4) != 0 {
 				rec.Rec = []string{"C^GGCCG", "GACGC(5/10)", "CAGGTACCCTTTAAACCTACTAACCC(-12/-16)", "G^AATTC", "(8/13)GAYNNNNNVTC(12/7)", "GGATCC"}[r.Intn(6)]
@@ -294,6 +302,7 @@ func runC16(w *mon.W) {
 				nontriv = true
 			}
 		}
+		w.Add("record_lines_longer_than_4_KiB", int64(longLines))
 		w.Eval(nontriv, mon.Hash64(listing))
 		rep := map[string]any{"listing": clip(listing, 20000), "indent": map[bool]string{true: "tabs", false: "blanks"}[tabs]}
 		var got map[string]rebase.Enzyme
